@@ -540,6 +540,21 @@ class Unit:
                 inserts.append((bo + start_c, [(' -> (e: %s)' % rtype, org)] + ls[1:] + [('{', org)]))
                 inserts.append((bo + endc, [('}', org)]))
                 out.count('R15', 1)
+            elif kind == 'closure-at':
+                # R15 for closures with parameters: line 1 = closure header text as it stands in the source (up to `{`),
+                # line 2 = the same header with parameter types and a named result, following lines = woven ensures
+                for sec_ in sl:
+                    ls_ = sec_['lines']
+                    key = ls_[0][1].strip()
+                    occ = [m.start() for m in re.finditer(re.escape(key), body)]
+                    if len(occ) != 1:
+                        raise Undecided('lost anchor: %s closure header %r (%d occurrences)' % (fid, key, len(occ)))
+                    org = {'kind': 'rewrite', 'rule': 'R15', 'fn': fid}
+                    if not key.endswith('{'):
+                        raise Undecided('template error: closure-at anchor must end with `{`')
+                    edits.append((bo + occ[0], bo + occ[0] + len(key) - 1, ls_[1][1].strip() + ' '))
+                    inserts.append((bo + occ[0] + len(key) - 1, [(t, {'kind': 'contract', 'fn': fid, 'tmpl_line': ln}) for ln, t in ls_[2:]]))
+                    out.count('R15', 1)
             elif kind == 'nested':
                 # contract of a fn item nested in the body: `fn <name>(..) -> T {`
                 m = re.search(r'\bfn\s+%s\b' % re.escape(str(nn)), body)
@@ -587,7 +602,7 @@ class Unit:
                 b, e = p[1], p[2]
                 seg = text[b:e]
                 # apply R5 edit if inside this segment
-                for eb, ee, rep in edits:
+                for eb, ee, rep in sorted(edits, key=lambda x: -x[0]):
                     if b <= eb and ee <= e:
                         seg = seg[:eb - b] + rep + seg[ee - b:]
                 line0 = src_line + text.count('\n', 0, b)
@@ -713,7 +728,7 @@ def run_verus(path, extra_args, tag, multiple_errors=40):
                 raw_err.append(l)
         elif l:
             raw_err.append(l)
-    return {'cmd': ' '.join(cmd), 'rc': p.returncode, 'json': js, 'diags': diags, 'raw_err': raw_err, 'wall': wall}
+    return {'cmd': ' '.join(cmd), 'rc': p.returncode, 'json': js, 'diags': diags, 'raw_err': raw_err, 'wall': wall, 'path': path}
 
 
 def classify(msg):
@@ -812,9 +827,26 @@ def analyse(out, res, unit):
         msg = d.get('message', '')
         if msg.startswith('aborting due to'):
             continue
-        spans = d.get('spans', [])
+        ours = os.path.basename(res.get('path', ''))
+        spans = []
+        for sp in d.get('spans', []):
+            cur = sp
+            # spans inside macro expansions (unreachable!, assert!, ...) point into core: walk out to the call site in our file
+            while cur is not None and os.path.basename(cur.get('file_name', '')) != ours:
+                ex = cur.get('expansion')
+                cur = ex.get('span') if ex else None
+            if cur is not None:
+                cur = dict(cur)
+                cur['is_primary'] = sp.get('is_primary')
+                cur['label'] = sp.get('label')
+                spans.append(cur)
         prim = [s for s in spans if s.get('is_primary')] or spans
         kind = classify(msg)
+        if spans and kind == 'precondition' and len(spans) < len(d.get('spans', [])):
+            # the violated precondition lives in vstd (panic / unreachable / unwrap / expect / index): a reachable panic site
+            ptxt = out.lines[prim[0]['line_start'] - 1] if prim and prim[0]['line_start'] - 1 < len(out.lines) else ''
+            if re.search(r'\b(unreachable|panic|assert|debug_assert)!|\.unwrap\(\)|\.expect\(', ptxt):
+                kind = 'panic'
         if not spans:
             hard.append(msg)
             continue
